@@ -85,3 +85,9 @@ func VDrainUnchokes(p *Peer) (unchoke, choke int) {
 	}
 	return
 }
+
+// VRunLive: peer.Run on a fake connection with the torrent alive (its done channel open).
+func VRunLive(p *Peer, tev chan TorEvent, torDone chan struct{}) {
+	p.conn = &vFakeConn{}
+	Run(p, tev, torDone, p.Info, nil, nil)
+}
